@@ -94,6 +94,12 @@ type trKernel struct {
 	// serialisation of Header/Blocks (hostile stream).
 	Lines []trLine `json:"lines,omitempty"`
 	Tag   string   `json:"tag,omitempty"`
+	// Group > 0: consecutive cases with the same Group are the kernel files of
+	// ONE trace directory (kernel-1..kernel-GSize with Memcpy lines in
+	// between), read one after another by one TraceReader in this process.
+	Group int `json:"group,omitempty"`
+	GPos  int `json:"gpos,omitempty"`
+	GSize int `json:"gsize,omitempty"`
 }
 
 // ---------------------------------------------------------------- observation
@@ -149,7 +155,10 @@ type trCase struct {
 	Parsed *trParsed `json:"parsed"`
 	Crash  bool      `json:"crash"`
 	Panic  string    `json:"panic,omitempty"`
-	Coq    string    `json:"coq"`
+	// Reparse: reading the same file a second time, after all other files of
+	// the directory, gave the same structure (absent = true)
+	ReparseDiffers bool   `json:"reparse_differs,omitempty"`
+	Coq            string `json:"coq"`
 }
 
 // ---------------------------------------------------------------- printing
@@ -563,6 +572,133 @@ func trRun(c *trCase, tmp string, idx int) {
 	c.Coq = trCoqCase(c)
 }
 
+// trRunGroup writes the kernels of a group into one trace directory, reads
+// them one after another with one TraceReader (as BenchmarkBuilder does), then
+// reads every file a second time in reverse order: the reader must be a
+// function of the file alone.
+func trRunGroup(cs []*trCase, tmp string, idx int) {
+	dir := filepath.Join(tmp, fmt.Sprintf("group%d", idx))
+	if err := os.MkdirAll(dir, 0o755); err != nil {
+		panic(err)
+	}
+	defer os.RemoveAll(dir)
+	var list strings.Builder
+	list.WriteString("MemcpyHtoD,0x00007fb0fc400000,200000\n")
+	for j, c := range cs {
+		lines := c.Kernel.Lines
+		if lines == nil {
+			lines = trKernelLines(&c.Kernel)
+		}
+		var sb strings.Builder
+		for i := range lines {
+			sb.WriteString(trLineText(&lines[i]))
+			sb.WriteString("\n")
+		}
+		name := fmt.Sprintf("kernel-%d.traceg", j+1)
+		if err := os.WriteFile(filepath.Join(dir, name), []byte(sb.String()), 0o644); err != nil {
+			panic(err)
+		}
+		list.WriteString(name + "\n")
+		if j%2 == 1 {
+			list.WriteString("MemcpyDtoH,0x00007fb0fc430e00,4\nMemcpyHtoD,0x00007fb0fc430e00,4\n")
+		}
+	}
+	list.WriteString("MemcpyDtoH,0x00007fb0fc400000,200000\n")
+	if err := os.WriteFile(filepath.Join(dir, "kernelslist.g"), []byte(list.String()), 0o644); err != nil {
+		panic(err)
+	}
+	cur := 0
+	func() {
+		defer func() {
+			if r := recover(); r != nil {
+				msg := fmt.Sprint(r)
+				if e, ok := r.(*log.Entry); ok {
+					msg = e.Message
+				}
+				if len(msg) > 200 {
+					msg = msg[:200]
+				}
+				for j := cur; j < len(cs); j++ {
+					if cs[j].Parsed == nil {
+						cs[j].Crash = true
+						cs[j].Panic = msg
+					}
+				}
+			}
+		}()
+		rd := new(tracereader.TraceReaderBuilder).WithTraceDirectory(dir).Build()
+		var metas []tracereader.TraceExecMeta
+		for _, m := range rd.GetExecMetas() {
+			if m.ExecType() == nvidiaconfig.ExecKernel {
+				metas = append(metas, m)
+			}
+		}
+		first := make([]string, len(cs))
+		for j, m := range metas {
+			if j >= len(cs) {
+				break
+			}
+			cur = j
+			tr := tracereader.ReadTrace(m)
+			cs[j].Parsed = trReadBack(&tr)
+			cs[j].Parsed.Kernels = len(metas)
+			d, _ := json.Marshal(cs[j].Parsed)
+			first[j] = string(d)
+		}
+		for j := len(cs) - 1; j >= 0 && j < len(metas); j-- {
+			cur = len(cs)
+			tr := tracereader.ReadTrace(metas[j])
+			p := trReadBack(&tr)
+			p.Kernels = len(metas)
+			d, _ := json.Marshal(p)
+			if string(d) != first[j] {
+				cs[j].ReparseDiffers = true
+			}
+		}
+	}()
+	for _, c := range cs {
+		c.Coq = trCoqCase(c)
+	}
+}
+
+// trGenGroup: the kernel list of an iterative application: two kernels
+// launched alternately with the same name and launch configuration every time
+// but a different body each time (plus, at the end, one launch whose file is
+// identical to the first).
+func trGenGroup(rng *vh.Rng, gid int) []trCase {
+	n := 3 + rng.Intn(3)
+	a := trGenKernel(rng, false, true)
+	b := trGenKernel(rng, false, true)
+	b.Header.Grid, b.Header.Block = a.Header.Grid, a.Header.Block
+	if rng.Bool() {
+		b.Header.Name = a.Header.Name + "2"
+	}
+	var out []trCase
+	for j := 0; j < n; j++ {
+		var k trKernel
+		switch {
+		case j == 0:
+			k = a
+		case j == 1:
+			k = b
+		case j == n-1 && rng.Bool():
+			k = a // the very same file again
+			k.Blocks = append([]trBlock{}, a.Blocks...)
+		default:
+			k = trGenKernel(rng, false, true)
+			if j%2 == 0 {
+				k.Header = a.Header
+			} else {
+				k.Header = b.Header
+			}
+		}
+		k.Header.KernelID = int64(j + 1)
+		k.Tag, k.Group, k.GPos, k.GSize = "valid", gid, j, n
+		out = append(out, trCase{Kernel: k})
+	}
+	return out
+}
+
 // ---------------------------------------------------------------- generation
 
 var trOps = []string{"MOV", "S2R", "IMAD", "ISETP.GE.AND", "EXIT", "HFMA2.MMA", "ULDC.64", "IMAD.WIDE", "LDG.E", "FADD",
@@ -921,8 +1057,14 @@ func traceMain(args []string) int {
 		}
 	} else {
 		rng := vh.NewRng(*seed)
-		for i := 0; i < *n; i++ {
-			cases = append(cases, trGenCase(rng.Fork()))
+		gid := 0
+		for len(cases) < *n {
+			if len(cases)%12 == 5 {
+				gid++
+				cases = append(cases, trGenGroup(rng.Fork(), gid)...)
+			} else {
+				cases = append(cases, trGenCase(rng.Fork()))
+			}
 		}
 	}
 	tmp, err := os.MkdirTemp("", "c20trace")
@@ -931,12 +1073,26 @@ func traceMain(args []string) int {
 		return 2
 	}
 	defer os.RemoveAll(tmp)
-	for i := range cases {
+	for i := 0; i < len(cases); {
 		c := &cases[i]
 		if c.Kernel.Blocks == nil {
 			c.Kernel.Blocks = []trBlock{}
 		}
-		trRun(c, tmp, i)
+		if c.Kernel.Group == 0 {
+			trRun(c, tmp, i)
+			i++
+			continue
+		}
+		var grp []*trCase
+		j := i
+		for ; j < len(cases) && cases[j].Kernel.Group == c.Kernel.Group; j++ {
+			if cases[j].Kernel.Blocks == nil {
+				cases[j].Kernel.Blocks = []trBlock{}
+			}
+			grp = append(grp, &cases[j])
+		}
+		trRunGroup(grp, tmp, i)
+		i = j
 	}
 	if cases == nil {
 		cases = []trCase{}
